@@ -240,6 +240,14 @@ impl Prop for C01 {
             let mut stream = tls::client_hello(r, &spec);
             stream.extend_from_slice(&tls::trailing(r));
             corrupt_bytes(r, &mut stream);
+            if r.chance(1, 4) {
+                // degenerate records, uncorrupted: alone, or in front of the stream
+                let mut d = tls::degenerate(r);
+                if r.chance(1, 2) {
+                    d.extend_from_slice(&stream);
+                }
+                stream = d;
+            }
             let n = r.urange(1, 8);
             let cuts = r.cuts(stream.len().max(2), n);
             let vspec = tls::random_spec(r, 1500);
